@@ -70,6 +70,7 @@ int main(int argc, char **argv) {
     long uid = argc > 3 ? atol(argv[3]) : 0; int n = argc > 4 ? atoi(argv[4]) : 1; devlog = (argc > 5 && strcmp(argv[5], "-")) ? argv[5] : NULL;
     if (argc > 6) { long ml = atol(argv[6]); char *m = malloc(ml + 1); memset(m, argc > 7 ? argv[7][0] : 'm', ml); m[ml] = 0; setenv("M", m, 1); free(m); }
     verif_rec_cb = cb;
+    FILE *resf = fopen(argv[2], "w");   /* the result channel is opened before privileges are dropped */
     if (uid) { setgroups(0, NULL); if (setresgid(uid, uid, uid) || setresuid(uid, uid, uid)) { perror("setres"); return 3; } }
     char *av[] = { "prog", "arg one", "two", NULL }; char *ev[] = { "A=1", "LOGNAME=someone", NULL };
     int ok = 1, lastret = 0, lasterr = 0; static char fds0[8192], fds1[8192]; long heapd[8] = {0}; int fdleak[8] = {0};
@@ -88,6 +89,6 @@ int main(int argc, char **argv) {
         fd_table(fds1, sizeof fds1); if (i < 8) fdleak[i] = strcmp(fds0, fds1) != 0;
         lastret = r; lasterr = e; if (r != -1 || e != ENOENT) ok = 0;
     }
-    FILE *f = fopen(argv[2], "w"); if (f) { fprintf(f, "{\"rec_calls\":%d,\"ret\":%d,\"errno\":%d,\"ok\":%d,\"heap_delta\":[%ld,%ld,%ld],\"fd_table_changed\":[%d,%d,%d],\"fds_after\":\"%s\"}\n", rec_calls, lastret, lasterr, ok && rec_calls == n, heapd[0], heapd[1], heapd[2], fdleak[0], fdleak[1], fdleak[2], fds1); fclose(f); }
+    FILE *f = resf; if (f) { fprintf(f, "{\"rec_calls\":%d,\"ret\":%d,\"errno\":%d,\"ok\":%d,\"heap_delta\":[%ld,%ld,%ld],\"fd_table_changed\":[%d,%d,%d],\"fds_after\":\"%s\"}\n", rec_calls, lastret, lasterr, ok && rec_calls == n, heapd[0], heapd[1], heapd[2], fdleak[0], fdleak[1], fdleak[2], fds1); fclose(f); }
     return 0;
 }
